@@ -225,7 +225,7 @@ Qed.
 Definition atom_follow (a : batom) (r : list byte) : Prop :=
   match a with
   | BWs _ => hd_sat (fun b => negb (is_space b)) r = true
-  | BLine _ | BHash _ => exists r', r = x0a :: r'
+  | BLine _ | BHash _ => r = [] \/ exists r', r = x0a :: r'
   | BBlock _ => True
   end.
 
@@ -240,18 +240,20 @@ Proof.
       * apply comment_err_hd. cbn. cbn [forallb] in Hs. apply andb_prop in Hs. destruct Hs as [Hw _].
         now rewrite (space_not_comment w Hw).
     + apply same_len_app_false. discriminate.
-  - destruct Hf as [r' ->]. exists body. split.
+  - assert (Hr : hd_sat (fun b => negb (negb (bmem b [x0a]))) r = true) by (destruct Hf as [-> | [r' ->]]; reflexivity).
+    exists body. split.
     + apply alt_ok. rewrite p_comment_eq. apply alt_ok. unfold cmt1. change cmt_line_open with (txt "//"). rewrite tag_ok. cbn [pbind].
       unfold take_till, take_while. change cmt_line_stop with [x0a].
-      rewrite (span_app_stop (fun b => negb (bmem b [x0a])) body (x0a :: r')); [reflexivity| |reflexivity].
+      rewrite (span_app_stop (fun b => negb (bmem b [x0a])) body r); [reflexivity| |exact Hr].
       eapply forallb_forall. intros x Hx. rewrite forallb_forall in Hw. specialize (Hw x Hx). cbn [bmem].
       unfold is_nl in Hw. now rewrite orb_false_r.
     + apply (same_len_app_false (txt "//" ++ body)). discriminate.
-  - destruct Hf as [r' ->]. exists body. split.
+  - assert (Hr : hd_sat (fun b => negb (negb (bmem b [x0a]))) r = true) by (destruct Hf as [-> | [r' ->]]; reflexivity).
+    exists body. split.
     + apply alt_ok. rewrite p_comment_eq. rewrite alt_err by exact I. rewrite alt_err by exact I.
       cbn [alt]. unfold cmt3. change cmt_hash_open with (txt "#"). rewrite tag_ok. cbn [pbind].
       unfold take_till, take_while. change cmt_hash_stop with [x0a].
-      rewrite (span_app_stop (fun b => negb (bmem b [x0a])) body (x0a :: r')); [reflexivity| |reflexivity].
+      rewrite (span_app_stop (fun b => negb (bmem b [x0a])) body r); [reflexivity| |exact Hr].
       eapply forallb_forall. intros x Hx. rewrite forallb_forall in Hw. specialize (Hw x Hx). cbn [bmem].
       unfold is_nl in Hw. now rewrite orb_false_r.
     + apply (same_len_app_false (txt "#" ++ body)). discriminate.
@@ -275,6 +277,26 @@ Proof.
   - destruct bl as [|[[|b ws']|?|?|?] bl']; try discriminate. unfold is_nl in Ha. apply byte_dec_bl in Ha. subst b.
     cbn [pr_blank pr_atom app]. eauto.
   - destruct bl as [|[[|b ws']|?|?|?] bl']; try discriminate. unfold is_nl in Ha. apply byte_dec_bl in Ha. subst b.
+    cbn [pr_blank pr_atom app]. eauto.
+  - exact I.
+Qed.
+
+(* the same at the end of input: the last atom may be an unterminated line comment *)
+Lemma wf_blank_eof_of bl : wf_blank bl = true -> wf_blank_eof bl = true.
+Proof.
+  induction bl as [|a bl IH]; [reflexivity|]. cbn [wf_blank wf_blank_eof]. intros H.
+  apply andb_prop in H. destruct H as [H H3]. apply andb_prop in H. destruct H as [H1 H2]. rewrite H1, (IH H3).
+  destruct a; cbn [adj_ok_eof]; try (now rewrite H2); destruct bl; try (now rewrite H2); discriminate.
+Qed.
+
+Lemma blank_head_follow_eof a bl : adj_ok_eof a bl = true -> wf_blank_eof bl = true -> atom_follow a (pr_blank bl []).
+Proof.
+  intros Ha Hw. destruct a as [ws|body|body|body]; cbn [adj_ok_eof adj_ok atom_follow] in *.
+  - destruct bl as [|a' bl']; cbn [pr_blank]; [reflexivity|].
+    destruct a' as [ws'|b'|b'|b']; [destruct bl'; discriminate| | |]; reflexivity.
+  - destruct bl as [|[[|b ws']|?|?|?] bl']; try discriminate; [left; reflexivity|]. unfold is_nl in Ha. apply byte_dec_bl in Ha. subst b.
+    cbn [pr_blank pr_atom app]. eauto.
+  - destruct bl as [|[[|b ws']|?|?|?] bl']; try discriminate; [left; reflexivity|]. unfold is_nl in Ha. apply byte_dec_bl in Ha. subst b.
     cbn [pr_blank pr_atom app]. eauto.
   - exact I.
 Qed.
@@ -316,6 +338,40 @@ Lemma blank_err lf k : nb k = true -> is_perr (p_blank lf k).
 Proof.
   intros H. unfold p_blank, many1. pose proof (nb_item_err k H) as E.
   destruct (alt [p_comment; multispace1] k); cbn in E; try contradiction. exact I.
+Qed.
+
+Lemma blank_loop_eof : forall bl fuel, wf_blank_eof bl = true -> length (pr_blank bl []) < fuel ->
+  exists l, many1_loop fuel (alt [p_comment; multispace1]) (pr_blank bl []) = POk [] l.
+Proof.
+  induction bl as [|a bl IH]; intros fuel Hw Hf.
+  - cbn [pr_blank] in *. destruct fuel as [|f]; [lia|]. cbn [many1_loop].
+    pose proof (nb_item_err [] eq_refl) as E. destruct (alt [p_comment; multispace1] []); cbn in E; try contradiction. eauto.
+  - cbn [wf_blank_eof] in Hw. apply andb_prop in Hw. destruct Hw as [Hw Hw3]. apply andb_prop in Hw. destruct Hw as [Hw1 Hw2].
+    cbn [pr_blank] in *. destruct fuel as [|f]; [lia|]. cbn [many1_loop].
+    destruct (item_atom a (pr_blank bl []) Hw1 (blank_head_follow_eof a bl Hw2 Hw3)) as [v [E1 E2]].
+    rewrite E1, E2. pose proof (lt_len_atom a (pr_blank bl []) Hw1).
+    destruct (IH f Hw3 ltac:(lia)) as [l ->]. cbn [pbind]. eauto.
+Qed.
+
+(* a blank at the end of input *)
+Lemma rt_blank_eof lf bl : wf_blank_eof bl = true -> bl <> [] -> length (pr_blank bl []) < lf ->
+  p_blank lf (pr_blank bl []) = POk [] tt.
+Proof.
+  intros Hw Hne Hf. destruct bl as [|a bl]; [contradiction|].
+  cbn [wf_blank_eof] in Hw. apply andb_prop in Hw. destruct Hw as [Hw Hw3]. apply andb_prop in Hw. destruct Hw as [Hw1 Hw2].
+  unfold p_blank, many1. cbn [pr_blank] in *.
+  destruct (item_atom a (pr_blank bl []) Hw1 (blank_head_follow_eof a bl Hw2 Hw3)) as [v [E1 _]]. rewrite E1.
+  pose proof (sfx_len_atom a (pr_blank bl [])).
+  destruct (blank_loop_eof bl lf Hw3 ltac:(lia)) as [l ->]. reflexivity.
+Qed.
+
+(* an optional blank slot at the end of input *)
+Lemma rt_oblank_eof lf bl : wf_blank_eof bl = true -> length (pr_blank bl []) < lf ->
+  exists o, opt (p_blank lf) (pr_blank bl []) = POk [] o.
+Proof.
+  intros Hw Hf. destruct bl as [|a bl].
+  - cbn [pr_blank]. exists None. apply opt_err, blank_err. reflexivity.
+  - exists (Some tt). apply opt_ok, rt_blank_eof; auto. discriminate.
 Qed.
 
 (* an optional blank slot filled with any well-formed blank, possibly empty *)
